@@ -450,70 +450,3 @@ fn k_value_bool() {
         None => assert!(to_bool(value) == Err(Error::IllegalParameterValue)),
     }
 }
-
-// ---------------------------------------------------------------------------
-// k_arguments_max  (C03, C05) -- two concrete inputs: MAX_ARGS and MAX_ARGS + 1
-// parameters.
-// ---------------------------------------------------------------------------
-
-static AM_A: Node = Node { children: &[], command: Some(0), query: None };
-static AM_ROOT: Node = Node { children: &[("A", &AM_A)], command: None, query: None };
-
-/// Replacement for `core::str::from_utf8` in `k_arguments_max` (`-Z stubbing`).
-///
-/// CBMC does not constant-fold the slice iterators of the parser, so every loop
-/// is unwound up to the bound; core's utf-8 validator has two nested loops and is
-/// called once per parameter, which alone exceeds the time limit.  The stub
-/// agrees with the original on ASCII data and ASSERTS that it only ever sees
-/// ASCII data (so it cannot hide anything: on other data the harness fails).
-#[allow(dead_code)]
-fn ascii_only_from_utf8(v: &[u8]) -> Result<&str, core::str::Utf8Error> {
-    let mut i = 0;
-    while i < v.len() {
-        assert!(v[i] < 128, "from_utf8 stub: only valid for ASCII data");
-        i += 1;
-    }
-    Ok(unsafe { core::str::from_utf8_unchecked(v) })
-}
-
-/// Inputs are concrete (22 and 24 bytes).  The longest loop is the parameter
-/// loop of `arguments` (10 iterations for 11 parameters) and the check loop over
-/// the 10 delivered parameters; every other loop (white space, mnemonic, digits,
-/// key comparison) runs at most twice on these inputs; unwind 12.
-#[kani::proof]
-#[kani::unwind(12)]
-#[kani::stub(core::str::from_utf8, ascii_only_from_utf8)]
-fn k_arguments_max() {
-    // exactly MAX_ARGS (10) parameters: accepted, all of them delivered in order
-    let input: &[u8] = b"A 1,2,3,4,5,6,7,8,9,0\n";
-    match parser::parse(&AM_ROOT, &AM_ROOT, input) {
-        Ok((rest, Some(call))) => {
-            assert!(rest.is_empty());
-            assert!(core::ptr::eq(call.node, &AM_A));
-            assert!(!call.query);
-            assert!(call.terminated);
-            assert!(call.args.len() == 10);
-            let want: [&str; 10] = ["1", "2", "3", "4", "5", "6", "7", "8", "9", "0"];
-            let mut i = 0;
-            while i < 10 {
-                match call.args[i] {
-                    Value::Decimal(s) => {
-                        assert!(s.len() == 1);
-                        assert!(s.as_bytes()[0] == want[i].as_bytes()[0]);
-                    }
-                    _ => panic!("parameter is not Decimal"),
-                }
-                i += 1;
-            }
-        }
-        _ => panic!("10 parameters must be accepted"),
-    }
-
-    // MAX_ARGS + 1 parameters: an error (not Incomplete), no panic, no truncation
-    let input: &[u8] = b"A 1,2,3,4,5,6,7,8,9,0,1\n";
-    match parser::parse(&AM_ROOT, &AM_ROOT, input) {
-        Ok(_) => panic!("11 parameters accepted (silently truncated?)"),
-        Err(ParseError::Incomplete) => panic!("11 parameters reported as Incomplete"),
-        Err(_) => {}
-    }
-}
